@@ -26,7 +26,7 @@ REQUIRED = {"post:gradient": 100, "post:spatial_derivatives": 100, "cases:noncon
 
 def jobs(tier, seed):
     n_jobs = 16 if tier == "quick" else 32
-    return [{"name": f"deriv-{j}", "seed": seed, "j": j, "n_cases": 20 if tier == "quick" else 160} for j in range(n_jobs)]
+    return [{"name": f"deriv-{j}", "seed": seed, "j": j, "n_cases": 80 if tier == "quick" else 500} for j in range(n_jobs)]
 
 
 def run_job(job, rec):
